@@ -384,9 +384,11 @@ def build():
             "evidence_file": "/verif/evidence/%s.json" % pid,
             "replay_cmd_template": "./check --replay {path}",
             "engine": "qv",
-            "level_claimed": {"category": "other", "text": c["text"], "design_ref": c["design"]},
+            "level_claimed": {"category": "other",
+                              "text": c["text"] + ((" " + SECOND_PASS[pid][0]) if SECOND_PASS.get(pid, ("",))[0] else ""),
+                              "design_ref": c["design"] + (", 9.5" if "9.5" not in c["design"] else "")},
             "level_note": c["note"],
-            "technique": c["technique"],
+            "technique": c["technique"] + (("; " + SECOND_PASS[pid][1]) if SECOND_PASS.get(pid, ("", ""))[1] else ""),
         })
     man = {
         "version": 1,
@@ -419,6 +421,64 @@ def build():
 
 
 NOT_APPLICABLE = {}
+
+
+# clauses added in the second pass (DESIGN 9.5); appended to the claim text and to the technique
+SECOND_PASS = {
+    "C01": ("Also decided: secular masks are written through the basis-managed property (not the raw storage); every "
+            "attribute of self read and every package-internal call made by the constructors/initialisers of the "
+            "covered tensor classes exists / supplies the required arguments.",
+            "descriptor-resolution rule, attribute-existence and call-arity analyses"),
+    "C02": ("Also decided: pure-dephasing factors are re-derived from the time step in force (derived-state "
+            "freshness); state-vector evolutions are converted from the rotating frame component-wise with "
+            "unit-modulus phases (TA); with absolute conversion times both propagators bring the initial state "
+            "into the rotating frame at the first point of the axis.",
+            "derived-state freshness (dominating deriver call or re-deriving writers), frame-origin protocol rule"),
+    "C03": ("Also decided: no in-place arithmetic on an array that has the element type of the caller's positions or "
+            "dipoles.", "element-type rule on in-place operators"),
+    "C04": ("Also decided: every provider of the diagonalisation matrix returns, on every path, the eigenvectors "
+            "of numpy.linalg.eigh of the current data.", "all-paths return-provenance rule"),
+    "C05": ("Also decided: methods that compute under energy_units('int') read units-managed properties only "
+            "inside that protection, including properties of objects the code has typed as FrequencyAxis.",
+            "protected-read analysis of units-managed descriptors (lexical context + isinstance typing)"),
+    "C06": ("Also decided: when a temperature is requested, the thermal factor and the recorded parameters use it "
+            "(three-valued flow of the 'T' entry); rate and tensor kernels do not write into the system-bath "
+            "operators or Hamiltonian they are given (effect analysis with field aliases).",
+            "three-valued dictionary-entry flow, effect analysis with field aliases"),
+    "C07": ("Also decided: the time-independent and the time-dependent Redfield implementations integrate over the "
+            "same window with and without a cut-off time.", "sibling cross-check of the integration windows"),
+    "C08": ("Also decided: the running value owns its storage (no rebinding to the stored first step); the stored "
+            "superoperator transforms covariantly into a basis context, ranks 4 and 5, using only S^-1 S = 1.",
+            "aliasing rule, covariance identity (TA) on the inherited transform"),
+    "C09": ("Also decided: component builders carry no per-component option on self; every builder uses the energy "
+            "entries of its parameter dictionary in the unit system it receives them in (RAW/INT typing through "
+            "the constructor dispatch); attributes of self read by the builders exist.",
+            "stateless-builder rule, unit-state typing of parameter dictionaries, attribute-existence analysis"),
+    "C11": ("Also decided: the operators handed to the calculator do not share storage with arrays the aggregate "
+            "rewrites in place.", "shared-storage (aliasing) analysis"),
+    "C12": ("Also decided: every pathway generator builds a well-formed double-sided diagram that ends in a "
+            "population and takes the width/dephasing of each tagged interval from the coherence present in it "
+            "(symbolic |ket><bra| tracking over 15 constructions); package-internal calls on the path supply "
+            "the arguments their callees take.", "symbolic diagram tracking, call-arity analysis"),
+    "C13": ("Also decided: axis conversions and Fourier transforms read the units-managed properties of frequency "
+            "axes under internal units only.", "protected-read analysis of units-managed descriptors"),
+    "C14": ("Also decided: the matrix handed to the Boltzmann routine is read inside a basis context that fixes the "
+            "basis the request defines (weak coupling: yes; strong coupling: no - recorded as a known finding).",
+            "defining-basis rule (lexical basis context of the managed read per request branch)"),
+    "C15": ("Also decided: the setter that restores the per-call refinement assigns on every path; the effect "
+            "analysis follows names bound to a part of an input.", "total-setter rule, field aliases"),
+    "C16": ("Also decided: the open-system getters build a hierarchy of the requested depth in the call.",
+            "all-paths return-provenance rule"),
+    "C17": ("Also decided: the result array is a fresh float array whatever the element type of the initial "
+            "populations.", "allocation element-type rule"),
+    "C18": ("Also decided: the packed axis+data table has an element type derived from the data; no saveable class "
+            "customises pickling/copying in a way that recomputes from units- or basis-managed properties.",
+            "allocation element-type rule, pickling-hook closure analysis over 80 classes"),
+    "C19": ("Also decided: the finite evaluation ranges over tags in {None, falsy, truthy}; the storage-resolution "
+            "label is written only by constructors, the guarded first addition and the conversion loop.",
+            "who-may-write rule with guard dominance"),
+    "C20": ("", ""),
+}
 
 
 def main():
